@@ -44,6 +44,19 @@ Proof. unfold npz_name. intros H. apply app_tail_len in H; [|reflexivity]. apply
 Lemma npy_npz a b : npy_name a <> npz_name b.
 Proof. unfold npy_name, npz_name. intros H. apply app_tail_len in H; [|reflexivity]. destruct H as [_ H]. discriminate H. Qed.
 
+(* uuid-named members (bytes / bytearray): u<n>.bin *)
+Lemma uuid_split n : uuid_name n = (s "u" ++ show_N n) ++ s ".bin".
+Proof. unfold uuid_name. rewrite app_assoc. reflexivity. Qed.
+Lemma uuid_inj a b : uuid_name a = uuid_name b -> a = b.
+Proof.
+  rewrite !uuid_split. intros H. apply app_tail_len in H; [|reflexivity]. destruct H as [H _].
+  change (s "u") with [117%N] in H. cbn [app] in H. injection H as H. apply show_N_inj. exact H.
+Qed.
+Lemma npy_uuid a n : npy_name a <> uuid_name n.
+Proof. rewrite uuid_split. unfold npy_name. intros H. apply app_tail_len in H; [|reflexivity]. destruct H as [_ H]. discriminate H. Qed.
+Lemma npz_uuid a n : npz_name a <> uuid_name n.
+Proof. rewrite uuid_split. unfold npz_name. intros H. apply app_tail_len in H; [|reflexivity]. destruct H as [_ H]. discriminate H. Qed.
+
 (* the file table *)
 Definition ft_own (kv : list (pstr * json)) : list (hkey * json) :=
   match dget (s "file") kv, dget (s "__id__") kv with
